@@ -218,6 +218,8 @@ pub struct App {
 pub const G_PUB: u8 = 0;
 pub const G_CTL: u8 = 1;
 pub const G_STOP: u8 = 2;
+/// the handshake service (server roles)
+pub const G_HS: u8 = 3;
 
 impl App {
     pub fn new() -> Rc<App> {
